@@ -45,7 +45,7 @@ func (d DataType) newEmpty(s uint16) interface{} {
 var newMap = map[DataType]func(v interface{}) (interface{}, error){
 	None:     func(_ interface{}) (interface{}, error) { return nil, nil },
 	Bool:     func(v interface{}) (interface{}, error) { return conv.Bool(v) },
-	Char8:    func(v interface{}) (interface{}, error) { return conv.Uint8(v) },
+	Char8:    func(v interface{}) (interface{}, error) { return conv.Int8(v) },
 	UChar8:   func(v interface{}) (interface{}, error) { return conv.Uint8(v) },
 	Int16:    func(v interface{}) (interface{}, error) { return conv.Int16(v) },
 	UInt16:   func(v interface{}) (interface{}, error) { return conv.Uint16(v) },
